@@ -13,7 +13,7 @@ use lrpar::{Lexeme, NonStreamingLexer, RTParserBuilder, RecoveryKind};
 use rayon::prelude::*;
 use serde_json::json;
 use std::cell::RefCell;
-use vcore::gram::{RefGrammar, Sym, all_inputs, family_empty, family_seeds};
+use vcore::gram::{RefGrammar, Sym, all_inputs, family_empty, family_empty2, family_seeds};
 use vcore::real::{Built, Drv, HInput, RTree, build, parse};
 use vcore::refs::analyse;
 use vcore::report::Ctx;
@@ -315,7 +315,7 @@ pub fn run(ctx: Ctx) -> i32 {
         universe_list(&[(2, 2, 2, 2, 6), (2, 3, 2, 2, 6), (3, 2, 2, 2, 6), (2, 2, 2, 3, 7)])
     };
     let (mut gs, mut sizes) = union(lists);
-    for (n, f) in [("F-empty", family_empty()), ("F-seeds", family_seeds())] {
+    for (n, f) in [("F-empty", family_empty()), ("F-empty2", family_empty2()), ("F-seeds", family_seeds())] {
         sizes.push((n.to_string(), f.len()));
         gs.extend(f);
     }
